@@ -38,6 +38,8 @@ fn err(e: &AErr) -> String {
         "TokenConfigDisabled" => "err Disabled".into(),
         "RequireEqViolated" => "err Provider".into(),
         "InvalidPriceFeedAccount" => "err Feed".into(),
+        "MismatchedFeedId" => "err Feed".into(),
+        "AccountOwnedByWrongProgram" => "err Feed".into(),
         o => format!("err Other({o})"),
     }
 }
@@ -110,10 +112,11 @@ fn show_oracle(o: &Oracle, tokens: &[u64]) -> String {
 struct KeyBox { pad: u64, key: Pubkey }
 struct Acc { key: KeyBox, lamports: u64, buf: Vec<u128>, len: usize, owner: Pubkey, writable: bool }
 impl Acc {
-    fn new(key: Pubkey, data: &[u8], writable: bool) -> Self {
+    fn new(key: Pubkey, data: &[u8], writable: bool) -> Self { Self::owned(key, gmsol_store::ID, data, writable) }
+    fn owned(key: Pubkey, owner: Pubkey, data: &[u8], writable: bool) -> Self {
         let mut buf = vec![0u128; (data.len() + 8) / 16 + 2];
         bytemuck::cast_slice_mut::<u128, u8>(&mut buf)[8..8 + data.len()].copy_from_slice(data);
-        Acc { key: KeyBox { pad: 0, key }, lamports: 1_000_000, buf, len: data.len(), owner: gmsol_store::ID, writable }
+        Acc { key: KeyBox { pad: 0, key }, lamports: 1_000_000, buf, len: data.len(), owner, writable }
     }
     fn zc<T: bytemuck::Pod + Discriminator>(key: Pubkey, t: &T, extra: usize, writable: bool) -> Self {
         let mut d = T::DISCRIMINATOR.to_vec();
@@ -123,14 +126,19 @@ impl Acc {
     }
 }
 
-struct NFeed { token: u64, allow_adjust: bool, found: bool, adjustment: u32, ratio: u32, ots: i64, slot: u64, minv: u32, maxv: u32, mult: u8, refv: u32, enabled: bool, prov_ok: bool, feed_ok: bool }
+/// `acct`: 0 = custom feed storing ChainlinkDataStreams, 1 = custom feed storing Pyth, 2 = Pyth `PriceUpdateV2` account
+/// (owner = Pyth receiver; price = refv, confidence = maxv − refv = refv − minv; no reference price). `expected`: 0 CDS | 1 Pyth.
+struct NFeed { token: u64, allow_adjust: bool, found: bool, adjustment: u32, ratio: u32, ots: i64, slot: u64, minv: u32, maxv: u32, mult: u8, refv: u32, enabled: bool, acct: u8, expected: u8, feed_ok: bool }
 
+const NF: usize = 15;
 fn parse_nfeed(t: &[&str], now: i64) -> Option<NFeed> {
-    if t.len() != 14 { return None; }
+    if t.len() != NF { return None; }
     let b = |s: &str| match s { "1" => Some(true), "0" => Some(false), _ => None };
     let f = NFeed { token: t[0].parse().ok()?, allow_adjust: b(t[1])?, found: b(t[2])?, adjustment: t[3].parse().ok()?, ratio: t[4].parse().ok()?,
         ots: t[5].parse().ok()?, slot: t[6].parse().ok()?, minv: t[7].parse().ok()?, maxv: t[8].parse().ok()?, mult: t[9].parse().ok()?, refv: t[10].parse().ok()?,
-        enabled: b(t[11])?, prov_ok: b(t[12])?, feed_ok: b(t[13])? };
+        enabled: b(t[11])?, acct: t[12].parse().ok()?, expected: t[13].parse().ok()?, feed_ok: b(t[14])? };
+    if f.acct > 2 || f.expected > 1 { return None; }
+    if f.acct == 2 && f.refv.checked_sub(f.minv)? != f.maxv.checked_sub(f.refv)? { return None; }
     let d = now as i128 - f.ots as i128;
     if f.mult > 20 || f.mult % 2 != 0 || f.minv > f.refv || f.refv > f.maxv || f.ots < 0 || d.abs() > 4_000_000_000 { return None; }
     Some(f)
@@ -138,7 +146,7 @@ fn parse_nfeed(t: &[&str], now: i64) -> Option<NFeed> {
 
 /// equivalent hook-level `batch` feed (used by the property oracle)
 fn nfeed_as_feed(f: &NFeed) -> String {
-    format!("{} {} {} {} {} {} {} {} {} {} {} 1 {} {}", f.token, f.allow_adjust as u8, f.found as u8, f.adjustment, f.ratio, f.ots, f.slot, f.minv, f.mult, f.maxv, f.mult, f.refv, f.mult)
+    format!("{} {} {} {} {} {} {} {} {} {} {} {} {} {}", f.token, f.allow_adjust as u8, f.found as u8, f.adjustment, f.ratio, f.ots, f.slot, f.minv, f.mult, f.maxv, f.mult, (f.acct != 2) as u8, f.refv, f.mult)
 }
 
 const CDS: PriceProviderKind = PriceProviderKind::ChainlinkDataStreams;
@@ -148,8 +156,8 @@ fn run_nbatch(t: &[&str]) -> Option<String> {
     let (max_age, max_range, max_future): (u64, u64, u64) = (t[3].parse().ok()?, t[4].parse().ok()?, t[5].parse().ok()?);
     let f_ok = match t[6] { "1" => true, "0" => false, _ => return None };
     let n: usize = t[7].parse().ok()?;
-    if t.len() != 8 + 14 * n { return None; }
-    let feeds: Vec<NFeed> = (0..n).map(|i| parse_nfeed(&t[8 + 14 * i..8 + 14 * (i + 1)], now)).collect::<Option<Vec<_>>>()?;
+    if t.len() != 8 + NF * n { return None; }
+    let feeds: Vec<NFeed> = (0..n).map(|i| parse_nfeed(&t[8 + NF * i..8 + NF * (i + 1)], now)).collect::<Option<Vec<_>>>()?;
     let mut ids: Vec<u64> = feeds.iter().map(|f| f.token).collect(); ids.sort(); ids.dedup();
     if ids.len() != n { return None; }
     let (store_k, map_k) = (h_store::pk(9001), h_store::pk(9002));
@@ -166,26 +174,51 @@ fn run_nbatch(t: &[&str]) -> Option<String> {
     for (i, f) in feeds.iter().enumerate() {
         let td = (20 - f.mult) / 2; // token_decimals = precision = feed decimals ⇒ Decimal { value = raw price, multiplier = mult }
         let feed_id = h_store::pk(7000 + i as u64);
+        let pyth_feed_id = h_store::pk(7500 + i as u64);
+        let expected = if f.expected == 0 { CDS } else { PriceProviderKind::Pyth };
         let mut tc = TokenConfig::zeroed();
         tc.set_enabled(f.enabled);
-        tc.set_expected_provider(CDS);
+        tc.set_expected_provider(expected);
         tc.set_flag(gmsol_utils::token_config::TokenConfigFlag::AllowPriceAdjustment, f.allow_adjust);
         tc.token_decimals = td; tc.precision = td; tc.heartbeat_duration = u32::MAX;
         if f.found {
-            let fc = FeedConfig::new(feed_id).with_timestamp_adjustment(f.adjustment)
-                .with_max_deviation_factor(if f.ratio == 0 { None } else { Some(f.ratio as u128 * RATIO_MULT) }).expect("ratio fits");
-            tc.set_feed_config(&CDS, fc).expect("feed index");
+            // the token has BOTH a ChainlinkDataStreams feed and a Pyth feed configured (same settings)
+            for (kind, id) in [(CDS, feed_id), (PriceProviderKind::Pyth, pyth_feed_id)] {
+                let fc = FeedConfig::new(id).with_timestamp_adjustment(f.adjustment)
+                    .with_max_deviation_factor(if f.ratio == 0 { None } else { Some(f.ratio as u128 * RATIO_MULT) }).expect("ratio fits");
+                tc.set_feed_config(&kind, fc).expect("feed index");
+            }
         }
         configs.push(tc);
-        let mut pf: Box<PriceFeed> = boxed();
-        let provider = if f.prov_ok { CDS } else { PriceProviderKind::Pyth };
-        let stored_id = if f.feed_ok { feed_id } else { h_store::pk(6000 + i as u64) };
-        c24::price_feed_init(&mut pf, provider, &store_k, &h_store::pk(9003), &token_key(f.token), &stored_id).ok()?;
         h_store::set_now(now); h_store::set_slot(f.slot);
-        let mut p = PriceFeedPrice::new(td, f.ots, f.refv as u128, f.minv as u128, f.maxv as u128, 0);
-        p.set_flag(gmsol_utils::price::PriceFlag::Open, true);
-        match c24::price_feed_update(&mut pf, &p, u64::MAX, false) { Ok(true) => {}, _ => return Some("err Other(feed update rejected)".into()) }
-        accs.push(Acc::zc(h_store::pk(8000 + i as u64), &*pf, 0, false));
+        if f.acct == 2 {
+            // Pyth `PriceUpdateV2` account: Anchor discriminator ++ borsh { write_authority, verification_level = Full,
+            // price_message { feed_id, price, conf, exponent, publish_time, prev_publish_time, ema_price, ema_conf }, posted_slot }
+            let id = if f.feed_ok { pyth_feed_id } else { h_store::pk(6500 + i as u64) };
+            let mut d = anchor_lang::solana_program::hash::hash(b"account:PriceUpdateV2").to_bytes()[..8].to_vec();
+            d.extend_from_slice(h_store::pk(9005).as_ref());
+            d.push(1); // VerificationLevel::Full
+            d.extend_from_slice(id.as_ref());
+            d.extend_from_slice(&(f.refv as i64).to_le_bytes());
+            d.extend_from_slice(&((f.maxv - f.refv) as u64).to_le_bytes());
+            d.extend_from_slice(&(-(td as i32)).to_le_bytes());
+            d.extend_from_slice(&f.ots.to_le_bytes());
+            d.extend_from_slice(&(f.ots - 1).to_le_bytes());
+            d.extend_from_slice(&(f.refv as i64).to_le_bytes());
+            d.extend_from_slice(&((f.maxv - f.refv) as u64).to_le_bytes());
+            d.extend_from_slice(&f.slot.to_le_bytes());
+            use anchor_lang::Id;
+            accs.push(Acc::owned(h_store::pk(8000 + i as u64), gmsol_store::states::Pyth::id(), &d, false));
+        } else {
+            let mut pf: Box<PriceFeed> = boxed();
+            let (provider, cfg_id) = if f.acct == 0 { (CDS, feed_id) } else { (PriceProviderKind::Pyth, pyth_feed_id) };
+            let stored_id = if f.feed_ok { cfg_id } else { h_store::pk(6000 + i as u64) };
+            c24::price_feed_init(&mut pf, provider, &store_k, &h_store::pk(9003), &token_key(f.token), &stored_id).ok()?;
+            let mut p = PriceFeedPrice::new(td, f.ots, f.refv as u128, f.minv as u128, f.maxv as u128, 0);
+            p.set_flag(gmsol_utils::price::PriceFlag::Open, true);
+            match c24::price_feed_update(&mut pf, &p, u64::MAX, false) { Ok(true) => {}, _ => return Some("err Other(feed update rejected)".into()) }
+            accs.push(Acc::zc(h_store::pk(8000 + i as u64), &*pf, 0, false));
+        }
     }
     let infos: Vec<AccountInfo> = accs.iter_mut().map(|a| {
         let d = &mut bytemuck::cast_slice_mut::<u128, u8>(&mut a.buf)[8..8 + a.len];
@@ -326,11 +359,13 @@ fn oracle(req: &str, resp: &str) -> Vec<Verdict> {
         // with another feed id must never yield prices
         let now: i64 = t[2].parse().unwrap();
         let n: usize = t[7].parse().unwrap();
-        let feeds: Vec<NFeed> = (0..n).map(|i| parse_nfeed(&t[8 + 14 * i..8 + 14 * (i + 1)], now).unwrap()).collect();
+        let feeds: Vec<NFeed> = (0..n).map(|i| parse_nfeed(&t[8 + NF * i..8 + NF * (i + 1)], now).unwrap()).collect();
         if resp.starts_with("ok") {
             for (i, f) in feeds.iter().enumerate() {
                 if !f.enabled { out.push(Verdict::Fail(format!("feed {i}: price accepted for a disabled token"))); }
-                if !f.prov_ok { out.push(Verdict::Fail(format!("feed {i}: price accepted from an unexpected provider"))); }
+                let claimed = if f.acct == 0 { 0 } else { 1 };
+                if claimed != f.expected { out.push(Verdict::Fail(format!("feed {i}: price accepted from provider {claimed} although the token expects provider {} ({} account)", f.expected, if f.acct == 2 { "Pyth-owned" } else { "custom" }))); }
+                if f.acct == 1 { out.push(Verdict::Fail(format!("feed {i}: a custom feed was decoded for a provider other than ChainlinkDataStreams"))); }
                 if !f.feed_ok { out.push(Verdict::Fail(format!("feed {i}: price accepted from a feed with another id"))); }
             }
         }
@@ -429,11 +464,17 @@ fn gen_req(r: &mut Rng) -> String {
             let refv: u32 = match r.below(8) { 0 => r.range(1, 60) as u32, 1 => u32::MAX - r.below(1000) as u32, _ => r.range(1000, 50_000_000) as u32 };
             let dev = ((refv as u128).saturating_mul(q as u128 * RATIO_MULT) / UNIT).min(1_000_000_000) as u64;
             let d = |r: &mut Rng| -> u64 { match r.below(6) { 0 => 0, 1 => dev, 2 => dev + 1, 3 => r.range(0, 3 * dev + 3), _ => r.range(0, dev / 2 + 1) } };
-            let minv = if r.chance(1, 25) { 0 } else { (refv as u64).saturating_sub(d(r)) as u32 };
-            let maxv = (refv as u64 + d(r)).min(u32::MAX as u64) as u32;
+            let acct: u8 = match r.below(10) { 0 => 1, 1..=4 => 2, _ => 0 };
+            let expected: u8 = if r.chance(1, 6) { r.below(2) as u8 } else if acct == 0 { 0 } else { 1 };
+            let mut minv = if r.chance(1, 25) { 0 } else { (refv as u64).saturating_sub(d(r)) as u32 };
+            let mut maxv = (refv as u64 + d(r)).min(u32::MAX as u64) as u32;
+            if acct == 2 { // symmetric confidence interval
+                let c = (refv - minv).min(maxv - refv).min(u32::MAX - refv);
+                minv = refv - c; maxv = refv + c;
+            }
             let o = ts(r, base).clamp(0, now + 4_000_000_000).max(now - 4_000_000_000).max(0);
-            s += &format!(" {} {} {} {} {q} {o} {} {minv} {maxv} {m} {refv} {} {} {}", i + 1, r.below(2), (!r.chance(1, 30)) as u8, adj(r), r.num(64) as u64,
-                (!r.chance(1, 25)) as u8, (!r.chance(1, 25)) as u8, (!r.chance(1, 25)) as u8);
+            s += &format!(" {} {} {} {} {q} {o} {} {minv} {maxv} {m} {refv} {} {} {} {}", i + 1, r.below(2), (!r.chance(1, 30)) as u8, adj(r), r.num(64) as u64,
+                (!r.chance(1, 25)) as u8, acct, expected, (!r.chance(1, 25)) as u8);
         }
         return s;
     }
